@@ -318,7 +318,8 @@ class Frame:
 
 class Interp:
     def __init__(self, repo, types, eff, inline=None, max_depth=4, max_paths=3000, collections=None,
-                 exc_in_try=False, enum_domain=None, call_hook=None, havoc_on_call=True, integral=(), unroll_while=0):
+                 exc_in_try=False, enum_domain=None, call_hook=None, havoc_on_call=True, integral=(), unroll_while=0,
+                 distinct_objs=False):
         self.repo, self.types, self.eff = repo, types, eff
         self.inline = inline or (lambda call, callee, depth: False)
         self.max_depth = max_depth
@@ -333,6 +334,7 @@ class Interp:
         self._cmp_consts = None
         self.unroll_while = unroll_while  # >0: execute `while` loops concretely for up to that many iterations
         self._quiet = 0  # >0: re-evaluation for refinement only -- no Call / Read events are logged
+        self.distinct_objs = distinct_objs  # small concrete models: differently named objects are different objects
         self.npaths = 0
         self._fresh = itertools.count()
         self.unknown_stmts = []
@@ -1352,6 +1354,13 @@ class Interp:
                 rng = range(*ints)
                 if len(rng) <= 16:
                     return ListV([Poly.const(i) for i in rng], True, "list")
+        if fname == "sum" and len(e.args) == 1:
+            inner = self._eval_iterable(e.args[0], st, fr)
+            if isinstance(inner, ListV) and all(isinstance(x, Poly) for x in inner.items):
+                tot = Poly()
+                for x in inner.items:
+                    tot = tot + x
+                return tot
         if fname == "len" and len(e.args) == 1:
             v = self.eval(e.args[0], st, fr)
             if isinstance(v, ListV) and v.fresh:
@@ -1708,6 +1717,8 @@ class Interp:
         if isinstance(a, Obj) and isinstance(b, Obj):
             if a.name == b.name and not a.maybe_none:
                 return True
+            if self.distinct_objs and a.name != b.name:
+                return False
             return None
         if isinstance(a, EnumSet) and isinstance(b, Const) and b.v is None:
             return False
